@@ -110,6 +110,9 @@ func (w *flateWriteWrapper) Close() error {
 	err1 := w.fw.Flush()
 	w.p.Put(w.fw)
 	w.fw = nil
+	if err1 != nil {
+		return err1
+	}
 	if w.tw.p != [4]byte{0, 0, 0xff, 0xff} {
 		return errors.New("websocket: internal error, unexpected bytes at end of flate stream")
 	}
